@@ -204,6 +204,9 @@ def body(chk):
     chk.tlc_stats(r)
     for v in r.violated:
         chk.violation(f"model:{v}", f"TLC: {v} violated in Cache", {"tlc": r.out[-3000:]})
+    from harness import tlaps
+
+    tlaps.prove(chk, "CacheRuleProofs")
     # the step-grain open run by ONE process is equivalent to an atomic one governed by CacheRule (the abstraction Alos2!Open uses); with two
     # processes it is not -- TLC must find that counterexample, else the check is vacuous
     ra = tlc.run_ok("CacheAtomic", "MC_CacheAtomic", workers=16, timeout=3000)
